@@ -265,6 +265,7 @@ func VerifH_C06_O1_transitive() {
 // verif:bounds a,b,c: kind in {int64,float64} (thorough: also uint64) with at least one float and one integer, non-null, any 64-bit payload / float bit pattern; ascending; nullsMax symbolic
 // verif:outside as O1a
 // verif:solver cvc5
+// verif:tier thorough
 func VerifH_C06_O1_transitive_mixed() {
 	kinds := vC06MixedQuick
 	if verif.Thorough() {
